@@ -89,6 +89,11 @@ func parseVar(type_ string, rawValue string, r parser.Range) (Value, Interpreter
 	case analysis.TypeMonetary:
 		return parseMonetary(rawValue)
 	case analysis.TypeAccount:
+		// the same names the grammar accepts after "@"
+		// (in particular not the empty text, nor the internal marker of kept funds)
+		if !accountNameRegex.MatchString(rawValue) {
+			return nil, InvalidAccountName{Name: rawValue}
+		}
 		return AccountAddress(rawValue), nil
 	case analysis.TypePortion:
 		bi, err := ParsePortionSpecific(rawValue)
@@ -974,6 +979,7 @@ func (st *programState) evaluateSentAmt(sentValue parser.SentValue) (*string, *b
 	}
 }
 
+var accountNameRegex = regexp.MustCompile(`^[a-zA-Z0-9_-]+(:[a-zA-Z0-9_-]+)*$`)
 var percentRegex = regexp.MustCompile(`^([0-9]+)(?:[.]([0-9]+))?[%]$`)
 var fractionRegex = regexp.MustCompile(`^([0-9]+)\s?[/]\s?([0-9]+)$`)
 
